@@ -35,8 +35,8 @@ Section KEYED.
   Hypothesis Hinj : forall x y, ck key ser x = ck key ser y -> x = y.
 
   Notation ckf := (ck key ser).
-  Definition sim (a : list string * list row) (b : list row * list row) : Prop :=
-    a = (map ckf (fst b), snd b).
+  (* the model threads ONE set (cache extended by the request's own rows) through the parse *)
+  Definition sim (c : list row) (a b : list row * list row) : Prop := b = (fst a ++ c, snd a).
 
   Lemma kmem_mem x c : kmem key ser x (map ckf c) = mem_row x c.
   Proof.
@@ -48,24 +48,27 @@ Section KEYED.
       assert (row_eqb y y = true) by now apply row_eqb_eq. congruence.
   Qed.
 
-  Lemma fold_sim {X} (f : list string * list row -> X -> list string * list row)
-        (g : list row * list row -> X -> list row * list row) :
-    (forall a b x, sim a b -> sim (f a x) (g b x)) ->
-    forall l a b, sim a b -> sim (fold_left f l a) (fold_left g l b).
+  Lemma mem_row_app x (a b : list row) : mem_row x (a ++ b) = mem_row x a || mem_row x b.
+  Proof. unfold mem_row. apply existsb_app. Qed.
+
+  Lemma fold_sim {X} c (f g : list row * list row -> X -> list row * list row) :
+    (forall a b x, sim c a b -> sim c (f a x) (g b x)) ->
+    forall l a b, sim c a b -> sim c (fold_left f l a) (fold_left g l b).
   Proof.
     intros H. induction l as [|x l IH]; intros a b Hs; cbn [fold_left]; [assumption|].
     apply IH. now apply H.
   Qed.
 
-  Lemma announce_type_sim d fp a b t :
-    sim a b -> sim (k_announce_type key ser d fp a t) (announce_type d fp b t).
+  Lemma announce_type_sim c d fp a b t :
+    sim c a b -> sim c (k_announce_type key ser (map ckf c) d fp a t) (announce_type d fp b t).
   Proof.
-    unfold sim. intros ->. destruct b as [c rows]. cbn [fst snd].
+    unfold sim. intros ->. destruct a as [loc rows]. cbn [fst snd].
     unfold k_announce_type, announce_type. rewrite kmem_mem.
-    destruct (mem_row (d, fp, tcode t) c); reflexivity.
+    rewrite mem_row_app.
+    destruct (mem_row (d, fp, tcode t) loc || mem_row (d, fp, tcode t) c); reflexivity.
   Qed.
 
-  Lemma parse_sim c ss : sim (k_parse key ser (map ckf c) ss) (parse c ss).
+  Lemma parse_sim c ss : sim c (k_parse key ser (map ckf c) ss) (parse c ss).
   Proof.
     unfold k_parse, parse. apply fold_sim; [|reflexivity].
     intros a b s Hs. unfold k_on_entries, on_entries. apply fold_sim; [|assumption].
@@ -75,6 +78,14 @@ Section KEYED.
 
   Lemma k_parse_rows c ss : snd (k_parse key ser (map ckf c) ss) = snd (parse c ss).
   Proof. pose proof (parse_sim c ss) as H. unfold sim in H. now rewrite H. Qed.
+
+  (* ConfirmSeries on the byte keys = entering the rows into the model's set *)
+  Lemma k_confirm_map c rows : k_confirm key ser (map ckf c) rows = map ckf (rows ++ c).
+  Proof. unfold k_confirm. now rewrite map_app. Qed.
+  Lemma k_refines c ss :
+    snd (k_parse key ser (map ckf c) ss) = snd (parse c ss) /\
+    k_confirm key ser (map ckf c) (snd (parse c ss)) = map ckf (snd (parse c ss) ++ c).
+  Proof. split; [apply k_parse_rows|apply k_confirm_map]. Qed.
 End KEYED.
 
 (* without injectivity the refinement fails: a serializer that keeps the low 32 bits only, two
@@ -83,8 +94,10 @@ Definition ser_low32 (k : Z) : string := le_bytes 8 (k mod 4294967296).
 Definition ex_key (x : row) : Z := let '(d, fp, t) := x in fp.     (* any key hash; here the fingerprint itself *)
 Definition ex_s1 : stream := {| s_fp := 4561022149596265783; s_entries := [{| e_ts := 1704888000000000000; e_type := TLog |}] |}.
 Definition ex_s2 : stream := {| s_fp := 12476575841660157239; s_entries := [{| e_ts := 1704888000000000000; e_type := TLog |}] |}.
+Definition ex_rows1 : list row := snd (k_parse ex_key ser_low32 [] [ex_s1]).
 Example truncating_serializer_swallows :
-  snd (parse [] [ex_s1; ex_s2]) = [(19732, 4561022149596265783, 1); (19732, 12476575841660157239, 1)] /\
-  snd (k_parse ex_key ser_low32 [] [ex_s1; ex_s2]) = [(19732, 4561022149596265783, 1)] /\
-  snd (k_parse ex_key ser_le8 [] [ex_s1; ex_s2]) = snd (parse [] [ex_s1; ex_s2]).
+  ex_rows1 = [(19732, 4561022149596265783, 1)] /\
+  snd (parse ex_rows1 [ex_s2]) = [(19732, 12476575841660157239, 1)] /\
+  snd (k_parse ex_key ser_low32 (k_confirm ex_key ser_low32 [] ex_rows1) [ex_s2]) = [] /\
+  snd (k_parse ex_key ser_le8 (k_confirm ex_key ser_le8 [] ex_rows1) [ex_s2]) = snd (parse ex_rows1 [ex_s2]).
 Proof. vm_compute. repeat split. Qed.
